@@ -184,7 +184,7 @@ package operator
 // function appends its step(s) and applies the step's effect to the simulated state; its precondition is the step's own
 // safety condition relative to that state.
 //@ pure leaderRole(p *metapb.Peer) = p.Role != 1 && p.Role != 3
-//@ pure wfPM(m peersMap) = m != nil && (forall s uint64 :: {in(m, s)} in(m, s) ==> s != 0 && m[s] != nil && allocated(m[s]) && m[s].StoreId == s)
+//@ pure wfPM(m peersMap) = m != nil && allocated(m) && (forall s uint64 :: {in(m, s)} in(m, s) ==> s != 0 && m[s] != nil && allocated(m[s]) && m[s].StoreId == s)
 //@ pure distinctMaps(b *Builder) = b.currentPeers != nil && b.toAdd != nil && b.toRemove != nil && b.toPromote != nil && b.toDemote != nil && b.currentPeers != b.toAdd && b.currentPeers != b.toRemove && b.currentPeers != b.toPromote && b.currentPeers != b.toDemote && b.toAdd != b.toRemove && b.toAdd != b.toPromote && b.toAdd != b.toDemote && b.toRemove != b.toPromote && b.toRemove != b.toDemote && b.toPromote != b.toDemote && b.peerAddStep != nil
 //@ pure bInv(b *Builder) = wfPM(b.currentPeers) && wfPM(b.toAdd) && wfPM(b.toRemove) && wfPM(b.toPromote) && wfPM(b.toDemote) && distinctMaps(b)
 // A plan is executable: what it adds goes to a FREE store, what it removes or demotes is never the leader chosen for
@@ -469,3 +469,33 @@ package operator
 //@   assumed
 //@   ensures (result == nil) == ufb("stepSafe", self, region)
 //@   modifies nothing
+
+// ---- the joint-consensus path ----
+// execChangePeerV2 (enter joint state with all promotions and demotions, optionally move the leader inside the joint
+// state, leave): the store that is leader when the joint state is LEFT is not one of the demoted ones, every promotion
+// and demotion concerns a peer that is present, and a transfer inside the joint state goes to a peer that may lead
+// (its promoted role if it is being promoted). Effect on the simulated state: demoted and promoted stores carry their
+// new peers, nothing else changes, both work maps are emptied.
+//@ pure leaveLeader(b *Builder, needTransferLeader bool) = ite(needTransferLeader && b.originLeaderStoreID != b.targetLeaderStoreID, b.targetLeaderStoreID, b.currentLeaderStoreID)
+//@ func (*Builder).execChangePeerV2
+//@   props C08
+//@   requires b != nil && bInv(b) && allocated(b.targetPeers) && allocated(b.originPeers)
+//@   requires [leader-at-leave-is-not-demoted] !in(b.toDemote, leaveLeader(b, needTransferLeader))
+//@   requires [promotions-and-demotions-on-present-peers] (forall s uint64 :: {in(b.toPromote, s)} in(b.toPromote, s) ==> in(b.currentPeers, s)) && (forall s uint64 :: {in(b.toDemote, s)} in(b.toDemote, s) ==> in(b.currentPeers, s))
+//@   requires [transfer-target-can-lead] needTransferLeader && b.originLeaderStoreID != b.targetLeaderStoreID ==> (in(b.toPromote, b.targetLeaderStoreID) && leaderRole(b.toPromote[b.targetLeaderStoreID])) || (!in(b.toPromote, b.targetLeaderStoreID) && in(b.currentPeers, b.targetLeaderStoreID) && leaderRole(b.currentPeers[b.targetLeaderStoreID]))
+//@   ensures [same-stores] forall s uint64 :: {in(b.currentPeers, s)} in(b.currentPeers, s) == old(in(b.currentPeers, s))
+//@   ensures [simulated] forall s uint64 :: {b.currentPeers[s]} b.currentPeers[s] == ite(old(in(b.toDemote, s)), old(b.toDemote[s]), ite(old(in(b.toPromote, s)), old(b.toPromote[s]), old(b.currentPeers[s])))
+//@   ensures [work-maps-emptied] b.toPromote != nil && b.toDemote != nil && b.toPromote != b.targetPeers && b.toPromote != b.originPeers && b.toDemote != b.targetPeers && b.toDemote != b.originPeers && b.toPromote != b.toDemote && (forall s uint64 :: {in(b.toPromote, s)} !in(b.toPromote, s)) && (forall s uint64 :: {in(b.toDemote, s)} !in(b.toDemote, s))
+//@   ensures [leader-after] b.currentLeaderStoreID == old(leaveLeader(b, needTransferLeader))
+//@   ensures [invariant-kept] bInv(b)
+//@   loop 1 invariant b.toPromote == old(b.toPromote) && b.toDemote == old(b.toDemote) && b.currentPeers == old(b.currentPeers) && bInv(b)
+//@   loop 1 invariant forall s uint64 :: {in(b.currentPeers, s)} in(b.currentPeers, s) == old(in(b.currentPeers, s))
+//@   loop 1 invariant forall s uint64 :: {b.currentPeers[s]} b.currentPeers[s] == old(b.currentPeers[s]) || (in(b.toPromote, s) && b.currentPeers[s] == b.toPromote[s])
+//@   loop 1 invariant forall k :: {callres("IDs", 1)[k]} 0 <= k && k <= rangeindex ==> b.currentPeers[callres("IDs", 1)[k]] == b.toPromote[callres("IDs", 1)[k]]
+//@   loop 1 modifies b.currentPeers[*], step.PromoteLearners
+//@   loop 2 invariant b.toDemote == old(b.toDemote) && b.currentPeers == old(b.currentPeers) && wfPM(b.currentPeers) && wfPM(b.toDemote)
+//@   loop 2 invariant forall s uint64 :: {in(b.currentPeers, s)} in(b.currentPeers, s) == old(in(b.currentPeers, s))
+//@   loop 2 invariant forall s uint64 :: {b.currentPeers[s]} b.currentPeers[s] == ite(old(in(b.toPromote, s)), old(b.toPromote[s]), old(b.currentPeers[s])) || (in(b.toDemote, s) && b.currentPeers[s] == b.toDemote[s])
+//@   loop 2 invariant forall k :: {callres("IDs", 2)[k]} 0 <= k && k <= rangeindex ==> b.currentPeers[callres("IDs", 2)[k]] == b.toDemote[callres("IDs", 2)[k]]
+//@   loop 2 modifies b.currentPeers[*], step.DemoteVoters
+//@   modifies b.steps, b.currentPeers[*], b.toPromote, b.toDemote, b.currentLeaderStoreID
